@@ -16,7 +16,7 @@ mkdir -p $ROOT/seeded/$ID; cp $SRC/patch.diff $SRC/meta.json $DEMO $ROOT/seeded/
 RES=""
 for P in "$@"; do
   OUT=$(cd $ROOT && VERIF_REPO=$WT ./vcheck $P 2>&1 | grep -v conda | tail -4)
-  LINE=$(echo "$OUT" | grep -E "^VIOLATION|^KNOWN" | head -2 | tr '\n' ' ')
+  LINE=$(echo "$OUT" | grep -E "^VIOLATION" | head -1 | tr '\n' ' ')
   LAST=$(echo "$OUT" | tail -1)
   echo "check $P: $LINE | $LAST"
   RES="$RES{\"check\":\"$P\",\"verdict\":\"$(echo $LINE | sed 's/"/\\"/g')\",\"summary\":\"$(echo $LAST | sed 's/"/\\"/g')\"},"
